@@ -48,6 +48,8 @@ with open(os.path.join(V, 'seeded', 'README.md'), 'w') as f:
         'C05-28': 'exit 2: the uniform ttl kept as a raw int32 tick count instead of a duration (the int64 twin ends the same way: representation change, twin pair ZD1)',
         'C03-27': 'exit 2: the one-victim limit of the prune is a predicate lambda over a running count (`so_far <= 1`): a state-changing loop limited by a local count (twin pair BC2)',
         'C17-28': 'exit 2: the purge is a cursor object stepped by `while (sweep.step())` whose tally is bumped before the liveness test - state carried across iterations in a member of a helper object (twin pair BD2)',
+        'C11-27': 'exit 2: node-handle re-insertion with lower_bound as the hint, tie order among equal counts (twin pair CB1, as C11-22)',
+        'C16-31': 'exit 2: node-handle re-keying of the ttl multimap with the old successor as the hint, tie order among equal deadlines (twin pair CC1)',
         'C11-22': 'exit 2: hinted multimap re-insertion with lower_bound as the hint (tie order among equal counts; twin pair SC1)',
         'C14-26': 'NOT DECIDED: as C14-20, float versus double product (twin pair SC2)',
         'C08-23': 'NOT DECIDED (exit 0): a hand-written move constructor leaves the partition iterator dangling - constructors and special members are outside the per-operation analysis (twin pair TF1, DESIGN 13.4p)',
